@@ -2,7 +2,7 @@
 //! `minidump_processor::process_minidump`, print the ProcessState fields canonically.
 //!
 //! case (whitespace separated, all decimal):
-//!   <arch> <platform_id> <time_date_stamp>
+//!   <arch> <platform_id> <time_date_stamp>          arch + 65536 = the whole dump is written big-endian
 //!   T <n>  { id ctxkind ip sp stackidx sbase }*n     ctxkind 0 none | 1 valid | 2 wrong flags | 3 truncated
 //!                                                   stackidx -1 = null descriptor starting at sbase
 //!   N <k>  { id readable nameid }*k                  thread name "n<nameid>"
@@ -50,6 +50,8 @@ pub struct ExcCase {
 #[derive(Default)]
 pub struct Case {
     pub arch: u16,
+    /// the whole dump is written big-endian (arch token + 65536)
+    pub big_endian: bool,
     pub platform: u32,
     pub time: u32,
     pub threads: Vec<ThreadCase>,
@@ -87,7 +89,9 @@ pub fn expect_tok(t: &mut Toks, s: &str) {
 
 pub fn parse_case(t: &mut Toks) -> Case {
     let mut c = Case::default();
-    c.arch = t.u64() as u16;
+    let a = t.u64();
+    c.arch = (a & 0xffff) as u16;
+    c.big_endian = a >> 16 != 0;
     c.platform = t.u64() as u32;
     c.time = t.u64() as u32;
     expect_tok(t, "T");
@@ -177,8 +181,13 @@ fn zeroed<T: SizeWith<scroll::Endian>>() -> Vec<u8> {
 
 /// A context of the dump's architecture with the given ip / sp (None: the architecture has no reader).
 pub fn context_bytes(arch: u16, ip: u64, sp: u64) -> Option<Vec<u8>> {
+    context_bytes_e(arch, ip, sp, false)
+}
+
+pub fn context_bytes_e(arch: u16, ip: u64, sp: u64, big: bool) -> Option<Vec<u8>> {
     use md::ContextFlagsCpu as F;
-    let e = TEndian::Little;
+    let e = if big { TEndian::Big } else { TEndian::Little };
+    let en = if big { scroll::BE } else { scroll::LE };
     let sec = |s: Section| s.get_contents().unwrap();
     Some(match arch {
         0 | 10 => sec(x86_context(e, ip as u32, sp as u32)),
@@ -190,7 +199,7 @@ pub fn context_bytes(arch: u16, ip: u64, sp: u64) -> Option<Vec<u8>> {
             c.pc = ip;
             c.sp = sp;
             let mut b = zeroed::<md::CONTEXT_ARM64_OLD>();
-            b.pwrite_with(c, 0, LE).unwrap();
+            b.pwrite_with(c, 0, en).unwrap();
             b
         }
         5 => {
@@ -199,7 +208,7 @@ pub fn context_bytes(arch: u16, ip: u64, sp: u64) -> Option<Vec<u8>> {
             c.iregs[15] = ip as u32;
             c.iregs[13] = sp as u32;
             let mut b = zeroed::<md::CONTEXT_ARM>();
-            b.pwrite_with(c, 0, LE).unwrap();
+            b.pwrite_with(c, 0, en).unwrap();
             b
         }
         1 => {
@@ -208,37 +217,37 @@ pub fn context_bytes(arch: u16, ip: u64, sp: u64) -> Option<Vec<u8>> {
             c.epc = ip;
             c.iregs[29] = sp;
             let mut b = zeroed::<md::CONTEXT_MIPS>();
-            b.pwrite_with(c, 0, LE).unwrap();
+            b.pwrite_with(c, 0, en).unwrap();
             b
         }
         3 => {
             let z = zeroed::<md::CONTEXT_PPC>();
-            let mut c: md::CONTEXT_PPC = z.pread_with(0, LE).unwrap();
+            let mut c: md::CONTEXT_PPC = z.pread_with(0, en).unwrap();
             c.context_flags = F::CONTEXT_PPC.bits() | 0x3;
             c.srr0 = ip as u32;
             c.gpr[1] = sp as u32;
             let mut b = z.clone();
-            b.pwrite_with(c, 0, LE).unwrap();
+            b.pwrite_with(c, 0, en).unwrap();
             b
         }
         0x8002 => {
             let z = zeroed::<md::CONTEXT_PPC64>();
-            let mut c: md::CONTEXT_PPC64 = z.pread_with(0, LE).unwrap();
+            let mut c: md::CONTEXT_PPC64 = z.pread_with(0, en).unwrap();
             c.context_flags = F::CONTEXT_PPC64.bits() as u64 | 0x3;
             c.srr0 = ip;
             c.gpr[1] = sp;
             let mut b = z.clone();
-            b.pwrite_with(c, 0, LE).unwrap();
+            b.pwrite_with(c, 0, en).unwrap();
             b
         }
         0x8001 => {
             let z = zeroed::<md::CONTEXT_SPARC>();
-            let mut c: md::CONTEXT_SPARC = z.pread_with(0, LE).unwrap();
+            let mut c: md::CONTEXT_SPARC = z.pread_with(0, en).unwrap();
             c.context_flags = F::CONTEXT_SPARC.bits() | 0x3;
             c.pc = ip;
             c.g_r[14] = sp;
             let mut b = z.clone();
-            b.pwrite_with(c, 0, LE).unwrap();
+            b.pwrite_with(c, 0, en).unwrap();
             b
         }
         _ => return None,
@@ -272,7 +281,8 @@ pub fn amd64_context_regs(regs: &[u64], ip: u64, sp: u64) -> Vec<u8> {
 }
 
 /// Bytes of a context section of the requested kind (None = no context: null location).
-fn context_of_kind(arch: u16, kind: u64, ip: u64, sp: u64) -> Option<Vec<u8>> {
+fn context_of_kind(arch: u16, kind: u64, ip: u64, sp: u64, big: bool) -> Option<Vec<u8>> {
+    let context_bytes = |arch, ip, sp| context_bytes_e(arch, ip, sp, big);
     match kind {
         0 => None,
         1 => Some(context_bytes(arch, ip, sp).unwrap_or_else(|| vec![0u8; 64])),
@@ -302,7 +312,7 @@ pub struct Built {
 
 /// `decorate` lets C15 add further streams / rename modules before the dump is finished.
 pub fn build_dump(c: &Case) -> Vec<u8> {
-    let e = TEndian::Little;
+    let e = if c.big_endian { TEndian::Big } else { TEndian::Little };
     let mut dump = SynthMinidump::with_endian(e);
     let wsize = pointer_bytes(c.arch);
 
@@ -336,7 +346,7 @@ pub fn build_dump(c: &Case) -> Vec<u8> {
         } else {
             s.D64(t.sbase).D32(0).D32(0)
         };
-        s = match context_of_kind(c.arch, t.ctxkind, t.ip, t.sp) {
+        s = match context_of_kind(c.arch, t.ctxkind, t.ip, t.sp, c.big_endian) {
             Some(b) => {
                 let cs = mk_ctx_section(b);
                 let s2 = s.D32(cs.file_size()).D32(cs.file_offset());
@@ -370,7 +380,7 @@ pub fn build_dump(c: &Case) -> Vec<u8> {
         ex.exception_record.exception_information[2] = x.info[2];
         let exc_bytes = match (&c.exc_regs, c.arch, x.ctxkind) {
             (Some(r), 9, 1) => Some(amd64_context_regs(r, x.ip, x.sp)),
-            _ => context_of_kind(c.arch, x.ctxkind, x.ip, x.sp),
+            _ => context_of_kind(c.arch, x.ctxkind, x.ip, x.sp, c.big_endian),
         };
         if let Some(b) = exc_bytes {
             let cs = mk_ctx_section(b);
@@ -453,7 +463,7 @@ pub fn build_dump(c: &Case) -> Vec<u8> {
         dump = dump.add_unloaded_module(UnloadedModule::new(e, *base, *size, &ds, 0x5000_0000, 0)).add(ds);
     }
     let mut bytes = dump.finish().expect("synth finish");
-    bytes[20..24].copy_from_slice(&c.time.to_le_bytes());
+    bytes[20..24].copy_from_slice(&if c.big_endian { c.time.to_be_bytes() } else { c.time.to_le_bytes() });
     bytes
 }
 
